@@ -5,6 +5,7 @@ import (
 	"fmt"
 	"strconv"
 	"strings"
+	"time"
 
 	"github.com/Eyevinn/mp4ff/aac"
 	"github.com/Eyevinn/mp4ff/mp4"
@@ -12,7 +13,7 @@ import (
 
 func init() {
 	props["C18"] = &propDef{
-		rule: "cases = the complete grid of AudioSpecificConfig values the library supports (13 table + 64 explicit 24-bit frequencies incl. 1, 2^24-1 and table neighbours x 16 channel configurations x object types 2/5/29 x extension frequencies), every ADTS header (13 indices x 8 channel configs x payload 0..8184), ADTS junk prefixes 0..187 bytes (random and ff-heavy), AAC sample entries via SetAACDescriptor, alone and in sequences (several tracks of one init / successive inits, all built before any is inspected or encoded); non-trivial = distinct case with an explicit frequency, or a payload >= 4089, or a non-empty junk prefix, or an HE-AAC object type",
+		rule: "cases = the complete grid of AudioSpecificConfig values the library supports (13 table + 64 explicit 24-bit frequencies incl. 1, 2^24-1 and table neighbours x 16 channel configurations x object types 2/5/29 x extension frequencies), every ADTS header (13 indices x 8 channel configs x payload 0..8184), ADTS junk prefixes 0..187 bytes (random and ff-heavy; for every length also junk made of sync-word fragments: ff runs, junk ending in ff / ff ff right before the sync word, ff + near-sync byte pairs, dense ff mixes), junk of 188..200 bytes and streams without any sync word (model correspondence), histories (2..8 and whole-grid sequences of ADTS / AudioSpecificConfig encode and decode calls whose results are all held and inspected after the last call), AAC sample entries via SetAACDescriptor, alone and in sequences (several tracks of one init / successive inits, all built before any is inspected or encoded); non-trivial = distinct case with an explicit frequency, or a payload >= 4089, or a non-empty junk prefix, or an HE-AAC object type",
 		gen:  genC18,
 		exec: execC18,
 	}
@@ -23,48 +24,93 @@ func execC18(req string) string {
 	if len(f) == 0 {
 		return ""
 	}
-	var out string
-	p := safe(func() { out = execC18Inner(f[0], f[1:]) })
-	if p != "" {
-		return p
+	run := func() string {
+		var out string
+		p := safe(func() { out = execC18Inner(f[0], f[1:]) })
+		if p != "" {
+			return p
+		}
+		return out
 	}
-	return out
+	if f[0] != "adts.dec" && f[0] != "hist" {
+		return run()
+	}
+	// the sync search is a loop over untrusted bytes: a search that never ends must not stall the whole check
+	ch := make(chan string, 1)
+	go func() { ch <- run() }()
+	t := time.NewTimer(30 * time.Second)
+	defer t.Stop()
+	select {
+	case r := <-ch:
+		return r
+	case <-t.C:
+		return "timeout"
+	}
 }
 
 func atoi(s string) int { v, _ := strconv.Atoi(s); return v }
 
 func execC18Inner(op string, a []string) string {
+	if op == "hist" {
+		// hist <request> | <request> | ... : every request is executed in order and its result (the byte slice an encoder
+		// returned, the struct a decoder returned) is held; only after the last one are all results rendered. Results are
+		// values: a later call must not change what an earlier call returned.
+		var late []func() string
+		for _, sub := range strings.Split(strings.Join(a, " "), "|") {
+			f := strings.Fields(sub)
+			if len(f) == 0 {
+				continue
+			}
+			late = append(late, prepC18(f[0], f[1:]))
+		}
+		out := make([]string, len(late))
+		for i, r := range late {
+			out[i] = r()
+		}
+		return strings.Join(out, " | ")
+	}
+	return prepC18(op, a)()
+}
+
+// prepC18 runs one request on the library and returns the renderer of the result it holds on to.
+func prepC18(op string, a []string) func() string {
+	konst := func(s string) func() string { return func() string { return s } }
 	switch op {
 	case "asc.enc":
 		asc := &aac.AudioSpecificConfig{ObjectType: byte(atoi(a[0])), ChannelConfiguration: byte(atoi(a[1])),
 			SamplingFrequency: atoi(a[2]), ExtensionFrequency: atoi(a[3])}
-		var buf bytes.Buffer
-		if err := asc.Encode(&buf); err != nil {
-			return "err"
+		buf := &bytes.Buffer{}
+		if err := asc.Encode(buf); err != nil {
+			return konst("err")
 		}
-		return hx(buf.Bytes())
+		return func() string { return hx(buf.Bytes()) }
 	case "asc.dec":
 		d, _ := unhx(a[0])
 		asc, err := aac.DecodeAudioSpecificConfig(bytes.NewReader(d))
 		if err != nil {
-			return "err"
+			return konst("err")
 		}
-		return fmt.Sprintf("%d %d %d %d %s %s", asc.ObjectType, asc.ChannelConfiguration, asc.SamplingFrequency,
-			asc.ExtensionFrequency, b01(asc.SBRPresentFlag), b01(asc.PSPresentFlag))
+		return func() string {
+			return fmt.Sprintf("%d %d %d %d %s %s", asc.ObjectType, asc.ChannelConfiguration, asc.SamplingFrequency,
+				asc.ExtensionFrequency, b01(asc.SBRPresentFlag), b01(asc.PSPresentFlag))
+		}
 	case "adts.enc":
 		h := aac.ADTSHeader{ObjectType: byte(atoi(a[0])), SamplingFrequencyIndex: byte(atoi(a[1])), ChannelConfig: byte(atoi(a[2])),
 			HeaderLength: 7, PayloadLength: uint16(atoi(a[3])), BufferFullness: uint16(atoi(a[4]))}
-		return hx(h.Encode())
+		enc := h.Encode()
+		return func() string { return hx(enc) }
 	case "adts.dec":
 		d, _ := unhx(a[0])
 		h, off, err := aac.DecodeADTSHeader(bytes.NewReader(d))
 		if err != nil {
-			return "err"
+			return konst("err")
 		}
-		return fmt.Sprintf("%d %d %d %d %d %d %d off=%d", h.ID, h.ObjectType, h.SamplingFrequencyIndex, h.ChannelConfig, h.HeaderLength,
-			h.PayloadLength, h.BufferFullness, off)
+		return func() string {
+			return fmt.Sprintf("%d %d %d %d %d %d %d off=%d", h.ID, h.ObjectType, h.SamplingFrequencyIndex, h.ChannelConfig, h.HeaderLength,
+				h.PayloadLength, h.BufferFullness, off)
+		}
 	}
-	return "bad-op"
+	return konst("bad-op")
 }
 
 var tableFreqs = []int{96000, 88200, 64000, 48000, 44100, 32000, 24000, 22050, 16000, 12000, 11025, 8000, 7350}
@@ -236,6 +282,8 @@ func genC18(c *Ctx) {
 		c.Case(dreq, execC18(dreq))
 		c.Eval("")
 	}
+	genC18SyncJunk(c)        // junk made of sync-word fragments (ff runs, ff + near-sync bytes), window edge, no sync at all
+	genC18History(c, freqs) // results of earlier encode/decode calls after later calls have been made
 	// ---- AAC sample entry: SetAACDescriptor -> esds -> DecSpecificInfo -> ASC
 	for _, ot := range []int{2, 5, 29} {
 		for _, f := range freqs {
@@ -427,4 +475,255 @@ func aacEntry(ot byte, f int) string {
 	}
 	return fmt.Sprintf("%d %d %d %d %s %s", asc.ObjectType, asc.ChannelConfiguration, asc.SamplingFrequency,
 		asc.ExtensionFrequency, b01(asc.SBRPresentFlag), b01(asc.PSPresentFlag))
+}
+
+// ---- the sync search on junk that is made of sync-word fragments. The property's window is 0..187 junk bytes of ANY
+// content that does not itself contain a sync word (ff, then fx with layer bits 00); the bytes that matter to the search
+// are exactly the ones that look like the beginning of a sync word: 0xff (also in runs, also as the last junk byte right
+// in front of the real sync word) and 0xff followed by a byte that is almost a sync second byte. Every family is run for
+// EVERY junk length 0..187 (direct oracle: header and offset) and on the model; past the window (188..) and without any
+// sync word there is no oracle beyond "terminates", model and code must classify alike.
+
+// all second bytes x such that (ff, x) is not a sync word; the near misses first
+func c18NearSyncSeconds() (near, all []byte) {
+	for x := 0; x < 256; x++ {
+		b := byte(x)
+		if b>>4 == 0xf && (b>>1)&3 == 0 {
+			continue
+		}
+		all = append(all, b)
+		if b>>4 == 0xf || b>>4 == 0xe || b == 0x7f {
+			near = append(near, b)
+		}
+	}
+	return
+}
+
+var c18JunkFamilies = []string{"ff-run", "ends-ff", "ends-ffff", "ff-pairs", "ff-dense", "tail-ff-run"}
+
+func c18SyncJunk(c *Ctx, fam string, jl int) []byte {
+	near, _ := c18NearSyncSeconds()
+	junk := make([]byte, jl)
+	nonff := func() byte { return byte(c.R.Intn(255)) }
+	switch fam {
+	case "ff-run":
+		for k := range junk {
+			junk[k] = 0xff
+		}
+	case "ends-ff", "ends-ffff":
+		for k := range junk {
+			junk[k] = nonff()
+		}
+		n := 1
+		if fam == "ends-ffff" {
+			n = 2
+		}
+		for k := jl - n; k < jl; k++ {
+			if k >= 0 {
+				junk[k] = 0xff
+			}
+		}
+	case "ff-pairs": // ff x ff x ..., optionally shifted by one byte
+		shift := c.R.Intn(2)
+		for k := range junk {
+			if (k+shift)%2 == 0 {
+				junk[k] = 0xff
+			} else {
+				junk[k] = near[c.R.Intn(len(near))]
+			}
+		}
+	case "ff-dense":
+		for k := range junk {
+			if c.R.Intn(2) == 0 {
+				junk[k] = 0xff
+			} else {
+				junk[k] = near[c.R.Intn(len(near))]
+			}
+		}
+	case "tail-ff-run":
+		for k := range junk {
+			junk[k] = byte(c.R.Intn(256))
+		}
+		run := 1 + c.R.Intn(8)
+		for k := jl - run; k < jl; k++ {
+			if k >= 0 {
+				junk[k] = 0xff
+			}
+		}
+	}
+	// no sync word inside the junk: ff followed by fx with layer bits 00 gets layer bits 11
+	for k := 0; k+1 < len(junk); k++ {
+		if junk[k] == 0xff && junk[k+1]>>4 == 0xf && (junk[k+1]>>1)&3 == 0 {
+			junk[k+1] |= 0x06
+		}
+	}
+	return junk
+}
+
+func genC18SyncJunk(c *Ctx) {
+	c.Note("ADTS sync search: junk families " + strings.Join(c18JunkFamilies, ", ") + " x every junk length 0..187 (oracle + model), lengths 188..200 and streams without any sync word (model)")
+	hang := func(req, ans string) bool {
+		if ans == "timeout" {
+			c.Fail("C18-adts-sync-search-hangs", "DecodeADTSHeader does not return within 30 s", req, ans, "an answer")
+			return true
+		}
+		return false
+	}
+	for _, fam := range c18JunkFamilies {
+		for jl := 0; jl <= 200; jl++ {
+			for rep := 0; rep < c.N(1, 6); rep++ {
+				junk := c18SyncJunk(c, fam, jl)
+				sfi, ch, pl := c.R.Intn(13), c.R.Intn(8), c.R.Intn(8185)
+				h := aac.ADTSHeader{ObjectType: 2, SamplingFrequencyIndex: byte(sfi), ChannelConfig: byte(ch), HeaderLength: 7,
+					PayloadLength: uint16(pl), BufferFullness: 0x7ff}
+				data := append(append([]byte{}, junk...), h.Encode()...)
+				if c.R.Intn(3) == 0 {
+					data = append(data, byte(c.R.Intn(256)), 0xff, 0xf1) // what follows the header is not looked at
+				}
+				dreq := "adts.dec " + hx(data)
+				dec := execC18(dreq)
+				c.Case(dreq, dec)
+				if hang(dreq, dec) {
+					continue
+				}
+				if jl > 187 {
+					c.Eval("")
+					c.Count("junk.beyond-window." + fam)
+					continue
+				}
+				c.Eval(dreq)
+				c.Count("junk." + fam)
+				want := fmt.Sprintf("0 2 %d %d 7 %d 2047 off=%d", sfi, ch, pl, jl)
+				if dec != want {
+					c.Fail("C18-adts-junk-offset", "sync word offset / header wrong when junk precedes the header (junk family "+fam+")", dreq, dec, want)
+				}
+				if jl == 6 && rep == 0 && fam == "ff-dense" {
+					c.Sample(dreq + " -> " + dec)
+				}
+			}
+		}
+		// no sync word at all: shorter than, equal to and longer than the window
+		for _, n := range []int{0, 1, 2, 3, 7, 8, 9, 100, 186, 187, 188, 189, 190, 191, 200, 376, 377, 400} {
+			junk := c18SyncJunk(c, fam, n)
+			dreq := "adts.dec " + hx(junk)
+			dec := execC18(dreq)
+			c.Case(dreq, dec)
+			hang(dreq, dec)
+			c.Eval("")
+			c.Count("junk.no-sync")
+		}
+	}
+}
+
+// ---- histories: the round trip Decode(Encode(x)) == x is stated for every x, not only for the x encoded last. An
+// application encodes a number of headers / configurations (one ADTS header per AAC frame) and uses the results
+// afterwards; likewise it keeps decoded values. The "hist" request executes its sub-requests in order, holds every
+// result and renders them all at the end. Oracle: every held encoding still decodes to its own value, every held decoded
+// value is still the value that was decoded. The model answers every sub-request on its own (pure functions).
+
+func genC18History(c *Ctx, freqs []int) {
+	type sub struct {
+		req, kind, want string // want = the decoded form of the value
+	}
+	adtsEnc := func(ot, sfi, ch, pl, bf int) sub {
+		return sub{fmt.Sprintf("adts.enc %d %d %d %d %d", ot, sfi, ch, pl, bf), "adts-encode",
+			fmt.Sprintf("0 %d %d %d 7 %d %d off=0", ot, sfi, ch, pl, bf)}
+	}
+	ascEnc := func(ot, ch, f, ef int) sub {
+		return sub{fmt.Sprintf("asc.enc %d %d %d %d", ot, ch, f, ef), "asc-encode",
+			fmt.Sprintf("%d %d %d %d %s %s", ot, ch, f, ef, b01(ot != 2), b01(ot == 29))}
+	}
+	randSub := func() sub {
+		var s sub
+		switch c.R.Intn(2) {
+		case 0:
+			s = adtsEnc(1+c.R.Intn(4), c.R.Intn(16), c.R.Intn(8), c.R.Intn(8185), c.R.Intn(2048))
+		default:
+			ot := []int{2, 5, 29}[c.R.Intn(3)]
+			f := freqs[c.R.Intn(len(freqs))]
+			ef := 0
+			if ot != 2 {
+				ef = []int{2 * f % (1 << 24), tableFreqs[c.R.Intn(13)], f}[c.R.Intn(3)]
+			}
+			s = ascEnc(ot, c.R.Intn(16), f, ef)
+		}
+		if c.R.Intn(3) == 0 { // the decoder on a fresh encoding of the value (its result is held instead)
+			enc := execC18(s.req)
+			if s.kind == "adts-encode" {
+				return sub{"adts.dec " + enc, "adts-decode", s.want}
+			}
+			return sub{"asc.dec " + enc, "asc-decode", s.want}
+		}
+		return s
+	}
+	run := func(subs []sub, bucket string) {
+		var reqs []string
+		for _, s := range subs {
+			reqs = append(reqs, s.req)
+		}
+		req := "hist " + strings.Join(reqs, " | ")
+		ans := execC18(req)
+		c.Case(req, ans)
+		c.Eval(req)
+		c.Count(bucket)
+		if ans == "timeout" {
+			c.Fail("C18-adts-sync-search-hangs", "DecodeADTSHeader does not return within 30 s", req, ans, "an answer")
+			return
+		}
+		late := strings.Split(ans, " | ")
+		if len(late) != len(subs) {
+			c.Fail("C18-history", "a sequence of encode/decode calls fails", req, ans, fmt.Sprintf("%d results", len(subs)))
+			return
+		}
+		for i, s := range subs {
+			got := late[i]
+			switch s.kind {
+			case "adts-encode":
+				got = execC18("adts.dec " + late[i])
+			case "asc-encode":
+				got = execC18("asc.dec " + late[i])
+			}
+			if got != s.want {
+				c.Fail("C18-"+s.kind+"-history", fmt.Sprintf("result %d of %d (%s) no longer is/decodes to its value once the later calls have been made", i+1, len(subs), s.req),
+					req, late[i]+" -> "+got, s.want)
+				return
+			}
+		}
+	}
+	// the whole ADTS index x channel grid encoded in one go, then all inspected; likewise a grid of configurations
+	var grid []sub
+	for sfi := 0; sfi < 13; sfi++ {
+		for ch := 0; ch < 8; ch++ {
+			grid = append(grid, adtsEnc(2, sfi, ch, (sfi*8+ch)*79%8185, 0x7ff))
+		}
+	}
+	run(grid, "hist.adts-grid")
+	grid = nil
+	for _, ot := range []int{2, 5, 29} {
+		for ch := 0; ch < 16; ch++ {
+			f := freqs[(ch*5+ot)%len(freqs)]
+			ef := 0
+			if ot != 2 {
+				ef = 2 * f % (1 << 24)
+			}
+			grid = append(grid, ascEnc(ot, ch, f, ef))
+		}
+	}
+	run(grid, "hist.asc-grid")
+	for i := 0; i < c.N(1500, 20000); i++ {
+		n := 2 + c.R.Intn(7)
+		subs := make([]sub, n)
+		for k := range subs {
+			subs[k] = randSub()
+		}
+		if i%4 == 0 { // same kind throughout (one header per frame)
+			for k := range subs {
+				subs[k] = adtsEnc(2, c.R.Intn(13), c.R.Intn(8), c.R.Intn(8185), 0x7ff)
+			}
+		}
+		run(subs, "hist.random")
+		if i == 0 {
+			c.Sample("hist " + subs[0].req + " | " + subs[1].req + " ...")
+		}
+	}
 }
